@@ -362,6 +362,14 @@ func c13GenHistory(r *vfRand) *c13Hist {
 			}
 		}
 	}
+	if nb > 1 && r.Chance(25) {
+		// every branch is cut from the first one: all of them start at ONE commit (see c13RunChunk: branches with equal
+		// trees share the commit), then diverge — per-branch work keyed by the last indexed commit must not be shared
+		for i := 1; i < nb; i++ {
+			trees[i] = trees[0].clone()
+		}
+		h.classes["branches-cut-from-one-commit"] = true
+	}
 	if r.Chance(20) {
 		trees[r.Intn(nb)][r.Pick(c13Paths)] = -1 // starts with a submodule entry somewhere
 	}
@@ -558,6 +566,29 @@ func c13RunChunk(t *testing.T, root string, hists []*c13Hist, base int) {
 			for i, name := range h.names {
 				if committed[i] != nil && committed[i].equal(st.trees[i]) {
 					st.marks[i] = last[i]
+					continue
+				}
+				// fast-forward / branch cut: a branch whose new tree is the tree another branch is at in this run moves to
+				// THAT commit (two indexed branches with one last-indexed commit; they may diverge again later)
+				shared := false
+				for j := range h.names {
+					if j == i || !st.trees[j].equal(st.trees[i]) {
+						continue
+					}
+					mj := 0
+					if j < i {
+						mj = st.marks[j]
+					} else if committed[j] != nil && committed[j].equal(st.trees[j]) {
+						mj = last[j]
+					}
+					if mj != 0 {
+						st.marks[i], last[i], committed[i] = mj, mj, st.trees[i]
+						h.classes["branches-at-one-commit"] = true
+						shared = true
+						break
+					}
+				}
+				if shared {
 					continue
 				}
 				nmarks++
